@@ -13,8 +13,9 @@
 -/
 import NemoVerif.Lemmas.Closed
 import NemoVerif.Lemmas.V1Compile
+import NemoVerif.Lemmas.Expand
 namespace NemoVerif.C12
-open NemoVerif NemoVerif.Closed NemoVerif.V1Compile
+open NemoVerif NemoVerif.Closed NemoVerif.V1Compile NemoVerif.Expand
 
 /-! ## (A) Colang 2.x: the verified checker -/
 
@@ -193,6 +194,49 @@ example : (match compileFull [.label "top", .whileS [.ifS [.simple "break"] [.si
 example : v1Closed [{ kind := .ifK, nextElse := some 2 }] = false ∧
     v1Closed [{ kind := .branch, branchHeads := [1] }] = false ∧
     v1Closed [{ kind := .ifK }] = false ∧ v1Closed [{ kind := .goto, name := some "x" }] = false := by
+  decide
+
+/-! ## (C) Colang 2.x: the expansion model (if / elif / else, while / break / continue) -/
+
+/-- The expansion of ANY statement list (arbitrary nesting) is closed: every goto / break / continue target is a label
+    of the same flow (a `break` / `continue` outside any loop keeps `label = None`), only primitives remain, and no
+    scope / merge element is produced. -/
+theorem expand_closed (ss : List Stmt) : Closed (expandFlow ss) :=
+  closed_of_inv _ 0 (expand_inv none ss 0)
+
+/-- hence the proved checker accepts it … -/
+theorem expand_checker_accepts (ss : List Stmt) : closed (expandFlow ss) = true :=
+  (closed_checker_correct _).2 (expand_closed ss)
+
+/-- … and no look-up of `slide` fails on any execution of the expanded flow, nor can the scope error occur. -/
+theorem expand_safe (ss : List Stmt) (h : Head Lbl) (hr : Reach (expandFlow ss) h) (c : Bool) :
+    step (expandFlow ss) h c ≠ .keyError ∧ step (expandFlow ss) h c ≠ .invalidLabel ∧
+    step (expandFlow ss) h c ≠ .scopeError ∧ h.pos ≤ (expandFlow ss).length := by
+  obtain ⟨h1, h2, h3⟩ := closed_reachable_safe _ (expand_closed ss) h hr c
+  refine ⟨h1, h2, ?_, h3⟩
+  apply scope_safe_partial
+  intro n hn
+  exact ((expand_inv none ss 0).plain _ hn).2.1 n rfl
+
+/-- Fresh-label lemma for the uid counter: every label defined while expanding `ss` from counter value `c` carries a
+    counter value in `[c, c')` where `c'` is the counter afterwards (so labels of consecutive / nested expansions never
+    collide) … -/
+theorem expand_labels_fresh (cb : Option (Lbl × Lbl)) (ss : List Stmt) (c : Nat) (l : Lbl)
+    (h : Prim.label l ∈ (expand cb ss c).1) : c ≤ l.2 ∧ l.2 < (expand cb ss c).2 :=
+  (expand_inv cb ss c).fresh l h
+
+/-- … and all labels of an expanded flow are pairwise distinct (for this subset; `when` duplicates labels in the real
+    compiler, which is why `Closed` does not demand uniqueness). -/
+theorem expand_labels_nodup (ss : List Stmt) : (labelsOf (expandFlow ss)).Nodup :=
+  expand_nodup none ss 0
+
+/-- `break` / `continue` are resolved to the labels of the innermost enclosing loop, also through `if` (finite fact) -/
+example : expandFlow [.whileS [.ifS [.brk] [.whileS [.cont]]], .brk] =
+    [.label ("_while_begin_", 0), .goto ("_while_end_", 0),
+     .goto ("if_else_body_label_", 1), .brk (some ("_while_end_", 0)), .goto ("if_end_label_", 2), .label ("if_else_body_label_", 1),
+     .label ("_while_begin_", 3), .goto ("_while_end_", 3), .cont (some ("_while_begin_", 3)), .goto ("_while_begin_", 3), .label ("_while_end_", 3),
+     .label ("if_end_label_", 2),
+     .goto ("_while_begin_", 0), .label ("_while_end_", 0), .brk none] := by
   decide
 
 end NemoVerif.C12
